@@ -27,6 +27,7 @@ class Machine:
         self.counts = {}
         self.setters = setters or {"=", "+=", "-=", "*=", "/=", "%=", "<<=", ">>=", "&=", "^=", "|="}
         self.builtin_funcs = builtin_funcs
+        self.regops = {}                # registered operators with scripted handlers: ('I'|'P'|'S', name) -> hid
 
     def call(self, hid, args):
         n = self.counts.get(hid, 0); self.counts[hid] = n + 1
@@ -49,6 +50,22 @@ class Machine:
         if v == ERR: raise Stop("ERR")
         return v
 
+    @staticmethod
+    def vdepth(v):
+        d, stack = 0, [(v, 0)]
+        while stack:
+            x, lvl = stack.pop()
+            if x[0] == "l":
+                lvl += 1; stack.extend((y, lvl) for y in x[1])
+            elif x[0] == "m":
+                lvl += 1; stack.extend((y, lvl) for p_ in x[1] for y in p_)
+            d = max(d, lvl)
+        return d
+
+    def bounded(self, v):
+        if self.vdepth(v) > 256: raise Stop("ERR")
+        return v
+
     def ev(self, t):
         k = t[0]
         if k == "lit": return lit_value(t[1])
@@ -65,12 +82,21 @@ class Machine:
             if t[1] in self.builtin_funcs: return self.chk(evalspec.function(t[1], args))
             raise Stop("ERR")
         if k == "un":
-            v = self.ev(t[2]); return self.chk(evalspec.prefix(t[1], v))
+            v = self.ev(t[2])
+            if ("P", t[1]) in self.regops: return self.call(self.regops[("P", t[1])], [v])
+            return self.chk(evalspec.prefix(t[1], v))
         if k == "post":
-            v = self.ev(t[1]); return self.chk(evalspec.postfix(t[2], v))
+            v = self.ev(t[1])
+            if ("S", t[2]) in self.regops: return self.call(self.regops[("S", t[2])], [v])
+            return self.chk(evalspec.postfix(t[2], v))
         if k in ("bin", "nbin"):
             op = t[1]
             a = self.ev(t[2]); b = self.ev(t[3])
+            if ("I", op) in self.regops:
+                # a registered (calc) operator: left operand, right operand, then the handler - whatever its associativity
+                v = self.call(self.regops[("I", op)], [a, b])
+                if k == "nbin": return self.chk(evalspec.prefix("not", v))
+                return v
             if op in self.setters:
                 if k == "nbin": raise Stop("SKIP")
                 if t[2][0] != "ref": raise Stop("ERR")
@@ -85,13 +111,15 @@ class Machine:
             c = self.ev(t[1])
             if c[0] != "b": raise Stop("ERR")
             return self.ev(t[2]) if c[1] else self.ev(t[3])
-        if k == "list": return ("l", [self.ev(a) for a in t[1]])
-        if k == "map": return ("m", [(self.ev(a), self.ev(b)) for a, b in t[1]])
+        # a list or map nested deeper than 256 levels is refused once all its parts have been evaluated (fix d4f0af3)
+        if k == "list": return self.bounded(("l", [self.ev(a) for a in t[1]]))
+        if k == "map": return self.bounded(("m", [(self.ev(a), self.ev(b)) for a, b in t[1]]))
         raise ValueError(k)
 
-def run_program(stmts, ctx, handlers, globals_=None):
+def run_program(stmts, ctx, handlers, globals_=None, regops=None):
     """returns (cls, value, ctx, log) with cls in OK / ERR / SKIP"""
     m = Machine(ctx, handlers, globals_)
+    if regops: m.regops = dict(regops)
     last = ("N",)
     try:
         for s in stmts:
